@@ -228,6 +228,11 @@ fn base_program(c: &Case) -> Built {
             main.push(Stmt::Segment { name: "sc".into(), block: Some(other) });
         }
     }
+    // (only where the segments are spelled out: a program without definitions relies on the implicit default segment)
+    let subs_elsewhere = (tests_in > 0 || banked) && c.entropy.iter().fold(0u32, |a, s| a.rotate_left(5) ^ s) % 5 < 2;
+    if subs_elsewhere {
+        main.push(Stmt::DefineSegment { name: "sl".into(), start: Some(Expr::hex(0xd400)), pc: None, write: None, bank: if banked { Some("b0".into()) } else { None } });
+    }
     main.push(Stmt::Const { name: "kexp".into(), e: Expr::num(7) });
     consts.insert("kexp".to_string(), 7);
     // some resident code/data before the tests
@@ -235,6 +240,7 @@ fn base_program(c: &Case) -> Built {
     main.push(Stmt::Data { size: DataSize::Byte, vals: vec![Expr::num(1), Expr::num(2), Expr::num(3)] });
     let mut tests = vec![];
     let seeds: Vec<u32> = (0..ntests).map(|_| e.next()).collect();
+    let mut libs: Vec<Stmt> = vec![];
     for (t, seed) in seeds.iter().enumerate() {
         let name = format!("t{}", t);
         // each test draws from its own slice of the entropy so that shrinking one leaves the others alone
@@ -246,6 +252,18 @@ fn base_program(c: &Case) -> Built {
         let n = 2 + g.e.below(7);
         let mut body = g.items(n, 0, false, false, 0);
         body.push(ins("brk", Form::None, None));
+        if subs_elsewhere {
+            // the subroutines live in a segment of their own (a library): same bank, so they - and the assertions in
+            // them - exist while the test runs
+            let mut lib = vec![];
+            for (sname, sbody) in std::mem::take(&mut g.subs) {
+                lib.push(Stmt::Label { name: sname, block: None });
+                lib.extend(sbody);
+            }
+            if !lib.is_empty() {
+                libs.push(Stmt::Segment { name: "sl".into(), block: Some(lib) });
+            }
+        }
         for (sname, sbody) in std::mem::take(&mut g.subs) {
             body.push(Stmt::Label { name: sname, block: None });
             body.extend(sbody);
@@ -257,6 +275,7 @@ fn base_program(c: &Case) -> Built {
         }
         tests.push(name);
     }
+    main.extend(libs);
     crate::gen::build::separate_ambiguous(&mut main);
     Built { prog: Program::single(main), tests, banked, consts }
 }
@@ -520,6 +539,7 @@ pub fn prop(c: &Case, log: &mut CaseLog) -> Verdict {
         log.label(format!("assert:{}", k));
     }
     log.label_if(b.banked, "banked");
+    log.label_if(prog.render().0.files.values().any(|t| t.contains("\"sl\" {") || t.contains("\"sl\"{")), "subroutines-in-library-segment");
     log.label(format!("tests:{}", b.tests.len()));
     let (proj, rs) = prog.render();
     let text = proj.main_text().to_string();
